@@ -246,6 +246,43 @@ def gen_dirc(rng, nops=50):
     ops += ["opendev 0 1", "mount 0 0 1", "usedirc 1", "list 0 0 1", "usedirc 0", "list 0 0 1", "free 0 0"] + epilogue()
     return ops
 
+def gen_chainops(rng, nops=None):
+    """namespace operations inside ONE long hash chain: 6-10 entries whose names share a hash slot, then removes, renames
+    (within the slot and out of it), comments and moves of entries at the head, in the middle and at the tail — every
+    one of them rewrites a neighbour's block"""
+    dostype = rng.randrange(8)
+    intl = bool(dostype & 6)
+    pool = NamePool(rng, intl, latin=rng.random() < 0.3)
+    slot = max(pool.by_slot, key=lambda k: len(set(fold(n, intl) for n in pool.by_slot[k])))
+    cands, seen = [], set()
+    for nm in pool.by_slot[slot]:
+        if fold(nm, intl) not in seen: seen.add(fold(nm, intl)); cands.append(nm)
+    rng.shuffle(cands)
+    ops = prologue(dostype, clock=(2014, 5, 6, 7, 8, 9))
+    if dostype & 4 and rng.random() < 0.5: ops.append("usedirc 1")
+    live = []
+    for i, nm in enumerate(cands[:rng.randint(6, 10)]):
+        if rng.random() < 0.3: ops.append(f"mkdir 0 0 {hx(nm)}")
+        else: ops += [f"open 1 0 0 {hx(nm)} 2", f"write 1 {rng.choice([10, 600, 2000])} {i + 3}", "close 1"]
+        live.append(nm)
+    ops.append(f"mkdir 0 0 {hx(b'elsewhere')}")
+    spare = cands[10:]
+    for _ in range(rng.randint(5, 10)):
+        if not live: break
+        nm = rng.choice(live); r = rng.random()
+        if r < 0.4:
+            ops.append(f"remove 0 0 {hx(nm)}"); live.remove(nm)
+        elif r < 0.6 and spare:
+            new = spare.pop(); ops.append(f"rename 0 0 {hx(nm)} {hx(new)}"); live.remove(nm); live.append(new)
+        elif r < 0.75:
+            ops.append(f"rename 0 0 {hx(nm)} {hx(nm[:20] + b'_mv')} / {hx(b'elsewhere')}"); live.remove(nm)
+        elif r < 0.9:
+            ops.append(f"comment 0 0 {hx(nm)} {hx(b'c' * rng.choice([1, 30, 79]))}")
+        else:
+            ops.append(f"access 0 0 {hx(nm)} {rng.choice([0, 2, 64])}")
+    ops += ["list 0 0 1", "free 0 0"] + epilogue()
+    return ops
+
 def gen_dircfull(rng):
     """exhaustion on a DIRCACHE volume: a directory with enough entries for several cache blocks, the volume filled to
     the last block, the newest entries deleted one by one (cache blocks get emptied and released), space refilled"""
